@@ -19,7 +19,8 @@ Record ecase := EC {
   e_rows : list N;          (* ids of the rows in the queue at start *)
   e_events : list gev;
   e_complete : bool;        (* the crawl ran to quiescence and stop returned *)
-  e_table_end : N           (* size of the reactor state table at quiescence *)
+  e_table_end : N;          (* size of the reactor state table at quiescence *)
+  e_maxretry : N            (* --max-retry *)
 }.
 
 (* ---- replay through PipeLts.step ---- *)
@@ -232,5 +233,27 @@ Definition seq_of (sid : N) (es : list gev) : list N :=
 Definition mon_one_place (c : ecase) : bool :=
   forallb (fun sid => cycle_ok None (seq_of sid (e_events c))) (e_rows c).
 
+(* m8 (C06): within one visit a URL is attempted at most max-retry + 1 times *)
+Definition count_N (u : N) (l : list N) : nat := length (filter (N.eqb u) l).
+Fixpoint attempts_ok (mr : nat) (es : list gev) : bool :=
+  match es with
+  | [] => true
+  | GPre sid p :: r =>
+    let fetched := fetched_until_archdone sid r in
+    let built := preprocessed_urls (p_t_pre p) in
+    forallb (fun u => Nat.leb (count_N u fetched) (S mr * count_N u built)) fetched && attempts_ok mr r
+  | _ :: r => attempts_ok mr r
+  end.
+Definition mon_attempts (c : ecase) : bool := attempts_ok (N.to_nat (e_maxretry c)) (e_events c).
+
+(* m9 (C06): no redirect chain longer than max-redirect, no pending node deeper than 3 asset levels *)
+Definition mon_bounds (c : ecase) : bool :=
+  forallb (fun e => match e with
+                    | GPre _ p => forallb (fun t => redir_chain_ok (max_redirect (e_cfg c)) t
+                                                    && (domains_crawl (e_cfg c) || pending_depth_ok (dwr_seed t) t))
+                                          [p_t_pre p; p_t_arch p; p_t_post p; p_t_fin p]
+                    | _ => true end) (e_events c).
+
 Definition mons (l : list ecase) :=
-  mon_idx [mon_once; mon_done; mon_no_late_fetch; mon_all_fetched; mon_bounded; mon_idle; mon_wf; mon_one_place] l.
+  mon_idx [mon_once; mon_done; mon_no_late_fetch; mon_all_fetched; mon_bounded; mon_idle; mon_wf; mon_one_place;
+           mon_attempts; mon_bounds] l.
